@@ -35,6 +35,7 @@ type c09case struct {
 	ops    []hop
 	faults []fault
 	tag    string
+	retry  bool // an Add that fails because its flush failed is issued again, once, with the same document
 }
 
 func faultString(fs []fault) string {
@@ -76,6 +77,19 @@ func runC09(o *out, id int, c c09case) *logWriter {
 		}
 		o.printf("W => %d %s\n", w.calls, strings.Join(parts, " "))
 	}
+	probe := func() {
+		if coll != nil {
+			p, err := coll.Resolve()
+			if err != nil {
+				o.printf("r => none\n")
+			} else {
+				o.printf("r => %s\n", renderSmart(modelKind, p))
+			}
+			info := coll.Info()
+			o.printf("i => %d %d\n", info.MetricsCount, info.SampleCount)
+		}
+		wlog()
+	}
 	for _, h := range c.ops {
 		switch h.op {
 		case 'A':
@@ -86,6 +100,16 @@ func runC09(o *out, id int, c c09case) *logWriter {
 				err = coll.Add(encDoc(h.doc))
 			}
 			o.printf("A %s => %s\n", hexDoc(h.doc), addClass(err))
+			if c.retry && addClass(err) == "flush" {
+				// what a caller does with a transient writer error: the same sample again
+				probe()
+				if wc != nil {
+					_, err = wc.Write(encDoc(h.doc))
+				} else {
+					err = coll.Add(encDoc(h.doc))
+				}
+				o.printf("A %s => %s\n", hexDoc(h.doc), addClass(err))
+			}
 		case 'F':
 			var err error
 			if wc != nil {
@@ -108,17 +132,7 @@ func runC09(o *out, id int, c c09case) *logWriter {
 				}
 			}
 		}
-		if coll != nil {
-			p, err := coll.Resolve()
-			if err != nil {
-				o.printf("r => none\n")
-			} else {
-				o.printf("r => %s\n", renderSmart(modelKind, p))
-			}
-			info := coll.Info()
-			o.printf("i => %d %d\n", info.MetricsCount, info.SampleCount)
-		}
-		wlog()
+		probe()
 	}
 	// the final log read back with the library's reader
 	all := []byte{}
@@ -310,8 +324,8 @@ func init() {
 		if thorough {
 			K = 12
 		}
-		singles := []fault{{fError, 0}, {fShort, 1}, {fShort, 7}, {fShort, 9999}}
-		pairTypes := []fault{{fError, 0}, {fShort, 7}, {fShort, 9999}}
+		singles := []fault{{kind: fError}, {kind: fShort, n: 0}, {kind: fShort, n: 0, quiet: true}, {kind: fShort, n: 1}, {kind: fShort, n: 7}, {kind: fShort, n: 9999}}
+		pairTypes := []fault{{kind: fError}, {kind: fShort, n: 7}, {kind: fShort, n: 9999}}
 		nfault := 0
 		for _, kind := range kinds {
 			for _, n := range []int{1, 2, 3} {
@@ -349,6 +363,31 @@ func init() {
 						id++
 						nfault++
 						runC09(ho, id, mk(sched([]int{i}, []fault{f}), "fault"))
+						if f.kind == fError || f.n == 0 {
+							// the same schedule with a caller that retries the refused sample (nothing was consumed)
+							c := mk(sched([]int{i}, []fault{f}), "fault")
+							c.retry = true
+							id++
+							nfault++
+							runC09(ho, id, c)
+						}
+					}
+				}
+				if kind == "wcoll" {
+					// Close itself meets the failing writer and is called again: m samples, the fault at write p
+					for m := 1; m <= 2*n+1; m++ {
+						for p := 0; p <= m/n+1; p++ {
+							for _, f := range []fault{{kind: fError}, {kind: fShort, n: 0}, {kind: fShort, n: 0, quiet: true}} {
+								c := c09case{kind: kind, n: n, faults: sched([]int{p}, []fault{f}), tag: "fault"}
+								for i := 0; i < m; i++ {
+									c.ops = append(c.ops, hop{op: 'A', doc: c09Doc('A', int64(i))})
+								}
+								c.ops = append(c.ops, hop{op: 'F'}, hop{op: 'F'})
+								id++
+								nfault++
+								runC09(ho, id, c)
+							}
+						}
 					}
 				}
 				for i := 0; i < K; i++ {
@@ -387,7 +426,7 @@ func init() {
 		}
 		// the D18 witness: the first Write consumes three bytes and fails, the retry and the flush succeed
 		{
-			c := c09case{kind: "stream", n: 1, faults: []fault{{fShort, 3}}, tag: "d18witness"}
+			c := c09case{kind: "stream", n: 1, faults: []fault{{kind: fShort, n: 3}}, tag: "d18witness"}
 			c.ops = []hop{{op: 'A', doc: c09Doc('A', 1)}, {op: 'A', doc: c09Doc('A', 2)}, {op: 'A', doc: c09Doc('A', 2)}, {op: 'F'}}
 			id++
 			runC09(ho, id, c)
